@@ -1,15 +1,31 @@
 """per-property MANIFEST text"""
-NOTES = 'Contract-based deductive verification with CBMC on C lowered from the real headers on every run; see DESIGN.md.'
+NOTES = ('Contract-based deductive verification with CBMC on C lowered from the real headers on every run (clang JSON AST -> tools/cxx2c*.py). '
+         'FC/FC+ obligations are unbounded (loop-free after contract replacement or after fixing the heap shape); BL obligations enumerate heap shapes '
+         'up to a stated bound with all scalars symbolic and are reported as bounded stand-ins, never counted as proved. See DESIGN.md.')
+_T = 'contract-based deductive verification: postconditions taken from the property text, asserted/enforced by CBMC 6.11 (goto-instrument --dfcc where a function contract is enforced) on C lowered mechanically from the real C++ on every run'
+_TB = 'trusted: cxx2c lowering, clang front end, CBMC, std:: models (specs/vp_models*.h), conforming reporter, user clauses as contract-only stubs; single-threaded; instantiations of tools/driver_tu.cpp only'
+def _bl(text): return {'category': 'model_checking', 'text': text, 'note': _TB + '; BOUNDED: heap shapes enumerated up to the bound stated in the evidence (expectations <= 3-4, sequences <= 2), all scalars symbolic', 'technique': _T + '; list-walking functions as bounded stand-ins over exhaustively enumerated heap shapes'}
+def _pf(text): return {'category': 'proof', 'text': text, 'note': _TB, 'technique': _T}
 CLAIMED = {
- 'C03': {'category': 'proof',
-         'text': 'DFCC function contracts on sequence_handler_base (satisfied/saturated/forbidden/increment/limits) proved for the full 64-bit domain; the list-level parts (handles exactly min(n,H), saturated naming) are bounded stand-ins reported separately.',
-         'note': 'trusted: lowering, CBMC, std models, conforming reporter; count < SIZE_MAX assumed for increment_call'},
+ 'C01': _bl('mock_func with its whole call closure (find, matches, run_actions, report paths) is run by CBMC from every well-formed state of <=3 expectations (thorough 4): accepted iff the C02 candidate exists, is not forbidding and is in sequence; otherwise exactly one fatal report, exception, and a frame condition (no count, list, sequence registration changes; no side effect / return evaluated).'),
+ 'C02': _bl('find() against the selection rule written from the property text (lowest sequence cost, newest among equals) for every shape of <=3 (4) expectations with free bounds/counts/match results, plus the two-sequence maximum rule; frame of mock_func: only the handler count changes.'),
+ 'C03': _pf('DFCC function contracts on sequence_handler_base (is_satisfied/is_saturated/is_forbidden/increment_call/set_limits/getters) proved over the full 64-bit domain; handles-exactly-min(n,H), saturation move and queries are bounded stand-ins over enumerated shapes.'),
+ 'C04': _bl('~call_matcher (complete destructor chain), ~expectations/decommission/mock_destroyed: one non-fatal report iff linked, unreported and below the lower bound; never twice (mock dies first, expectation released later); frame on all other expectations; for every shape of <=3 expectations.'),
+ 'C05': _bl('mock_func sequence part (eligible iff all pending predecessors satisfied; predecessors retired on every accepted call; rejected call changes nothing) over enumerated shapes; monitored destruction (notify) loop-free obligations: died always, non-fatal report iff ineligible, predecessors retired.'),
+ 'C06': _bl('sequence_type::is_completed against its specification, ~sequence_type (one non-fatal report iff registrations remain, all removed), expectations leave their sequences on release and saturation; over enumerated shapes.'),
+ 'C07': _bl('forbidding candidate: exactly one fatal report with its location, marked reported, nothing else changes (so repeated calls behave identically); always satisfied and saturated; never reports at end of life (C04 obligations).'),
+ 'C08': _bl('action loop and return handler in mock_func over enumerated shapes: side effects once each in list (= declaration) order, then the return handler once, throwing clause stops the rest and still counts; only the handler\'s clauses; trace_return forwards the very object. Clause counts <= 2; value conversions not covered.'),
+ 'C13': _pf('loop-free obligations through the real constructors/destructors of deathwatched<T> and lifetime_monitor: unexpected destruction, expected destruction (unsequenced / first / behind a predecessor), requirement released first, copy/move/assign. Two requirements on one object is a recorded known finding (F4).'),
+ 'C14': _bl('every obligation of every property runs with CBMC pointer/bounds checks on heap objects that are freed when destroyed, so any use of a destroyed object is a named failure; ring well-formedness after every operation; destroy-then-continue scenarios. F6 (sequence object destroyed first) and F4 are recorded known findings.'),
+ 'C15': _bl('severity and location postconditions on every report produced in the C01-C07/C13 obligations: fatal from mock_func paths, non-fatal from destructor paths; destructors never throw (std::terminate obligation); report text listing not yet covered.'),
+ 'C16': _pf('set_reporter (both forms) and reporter<specialized>::send/sendOk loop-free obligations; exactly one OK report naming the handler on accepted calls and none on rejected calls is asserted in the mock_func obligations (bounded shapes).'),
+ 'C17': _pf('tracer constructor/destructor nesting, set_tracer, trace_agent (no tracer => nothing; tracer => exactly one record at destruction with location, text, arguments, value / what() / unknown) loop-free; mock_func delivers exactly one record per accepted call to tracer_obj() (bounded shapes). Nesting of tracer lifetimes is a stated precondition.'),
 }
-_PENDING = 'claimed in DESIGN.md; the check for it is not built yet in this commit (work in progress) - not claimed until its obligations run'
+_PENDING = 'planned in DESIGN.md; obligations not built yet in this commit - not claimed until they run'
 NOT_APPLICABLE = {
  'C09': 'C++ reference binding / lambda capture semantics generated by macros: no function body to put a contract on; CBMC cannot parse the constructs and a C lowering would have to assume the binding semantics to be shown (DESIGN.md section 8)',
  'C12': 'thread schedules: CBMC contracts are sequential, no obligation can quantify over interleavings (DESIGN.md section 8)',
  'C20': 'C++20 coroutines: neither CBMC nor the lowering has coroutine-frame semantics (DESIGN.md section 8)',
 }
-for p in ['C01','C02','C04','C05','C06','C07','C08','C10','C11','C13','C14','C15','C16','C17','C18','C19']:
+for p in ['C10', 'C11', 'C18', 'C19']:
     NOT_APPLICABLE.setdefault(p, _PENDING)
